@@ -158,8 +158,11 @@ class SessionSim(Sim):
         if 'expand' in self.session_oracles:
             self.check_expand(w, ctx, warns, missing, rng)
         if 'invariance' in self.session_oracles and not default and len(self.retained) < 4:
+            handles = ([('w', x) for x in w.words()[:2]] + [('s', x) for x in w.senses()[:2]]
+                       + [('ss', x) for x in w.synsets()[:2]])
             self.retained.append({'cfg': cfg, 'w': w, 'S': S, 'E': E,
-                                  'tr': self.transcript(w), 'age': 0})
+                                  'tr': self.transcript(w), 'age': 0, 'handles': handles,
+                                  'htr': self.handle_transcript(handles)})
 
     def v(self, oracle, msg, detail, tags=()):
         return self.violation(oracle, msg, detail, tags)
@@ -314,6 +317,32 @@ class SessionSim(Sim):
             lx.pop('requires', None)
         return img
 
+    def handle_transcript(self, handles):
+        """What long-lived entity objects (not re-fetched) report."""
+        out = []
+        for kind, e in handles:
+            try:
+                if kind == 'w':
+                    o = observe.word_obs(e)
+                    for f in o['forms']:
+                        f['tags'] = sorted(map(canon, f['tags']))
+                        f['prons'] = sorted(map(canon, f['prons']))
+                elif kind == 's':
+                    o = observe.sense_obs(e)
+                    o['relations'] = {k: sorted(map(canon, v)) for k, v in o['relations'].items()}
+                    o['examples'] = sorted(o['examples'])
+                    o['frames'] = sorted(o['frames'])
+                    o['counts'] = sorted(map(canon, o['counts']))
+                else:
+                    o = observe.synset_obs(e)
+                    o['relations'] = {k: sorted(map(canon, v)) for k, v in o['relations'].items()}
+                    o['examples'] = sorted(o['examples'])
+                    o['related'] = sorted(canon(tkey(t)) for t in e.get_related())
+            except wn.Error:
+                o = {'error': 'wn.Error'}
+            out.append([kind, e.id, o])
+        return out
+
     def check_invariance(self, op):
         before, after = set(self.before_installed), set(self.m.installed)
         touched = before ^ after
@@ -332,6 +361,22 @@ class SessionSim(Sim):
                 ext_annot = any(self.m.idx[x].base in ses['S']
                                 and self.m.annotated_entries(x) for x in touched
                                 if x in self.m.idx)
+                hnow = self.handle_transcript(ses['handles'])
+                if hnow != ses['htr']:
+                    d = compare.diff(ses['htr'], hnow)
+                    only_annot = (ext_annot and F_SCOPE in compare.ENABLED_FINDINGS and d
+                                  and all(('/tags' in x[0] or '/prons' in x[0]) for x in d))
+                    if only_annot:
+                        compare.note_known(F_SCOPE)
+                        ses['htr'] = hnow
+                    else:
+                        path, msg, detail = d[0] if d else ('?', 'differs', None)
+                        raise self.v('invariance', 'result reported by a long-lived entity '
+                                     'object of a Wordnet restricted to S changed when lexicons '
+                                     'outside S and its expand set were %s'
+                                     % ('added' if after - before else 'removed'),
+                                     {'cfg': ses['cfg'], 'S': ses['S'], 'E': ses['E'], 'op': op,
+                                      'touched': sorted(touched), 'path': path, 'diff': detail})
                 for label, w in (('retained', ses['w']), ('fresh', None)):
                     if w is None:
                         w, _, exc = self.open(ses['cfg'])
